@@ -12,14 +12,15 @@ import LitexModel.Export.MemImage
           S: get_csr_svd absolute address per simple CSR
   call decode <busword> <aw> <paging> <ratio> <off> ; <bank> ; ...   -> `b:i b:i ...` (or `-`) strobed by a 32-bit
        access (ratio > 1: load through the AXI-Lite wide->32 down-converter, which reads every part of the bus word)
-  call sweep <busword> <aw> <paging> ; <bank> ; ...          -> `adr:b:i ...` for every CSR-bus address 0 .. 2^aw-1
+  call sweep <busword> <aw> <paging> ; <bank> ; ... ; M <page> <depth> <pv> ; ...
+       -> `adr:b:i ...` and `adr:Mk:word` (memory k's write port) for every CSR-bus address 0 .. 2^aw-1
   call accread <busword> <nw> <w0> <w1> ...                  -> value | none      (generated reader on load results)
   call accwrite <busword> <nw> <v>                           -> w0 w1 ... | none  (generated writer's store data)
   call hwwords <big> <busword> <size> <v>                    -> w0 w1 ...         (ascending addresses)
   call hwwrite <big> <atomic> <busword> <size> <old> <back> <j0> <w...>   -> storage value after the stores
   call memimage <big> <q> <baseOff> <b0> <b1> ...            -> words of get_mem_data
   call imagebytes <big> <q> <n> <w0> <w1> ...                -> the n bytes a CPU reads from the image
-  call memsel <paging> <page> <depth> <adr>                  -> word | -
+  call sramsel <paging> <page> <depth> <pv> <adr>            -> <page register bits> <word | ->  (CSR memory window)
   call fieldextract <offset> <size> <word>
   call accepts <alignment> <aw> <paging> <busword> ; <bank> ; ...   -> ok | rejected   (SoCError at build time)
   call nlocs <alignment> <aw> <paging>
@@ -53,9 +54,16 @@ def call (args : List String) : Option String :=
   | "decode" :: bw :: aw :: pg :: ratio :: off :: rest => do
     some (showHits (hwDecodeWide (← ratio.toNat?) (← bw.toNat?) (← aw.toNat?) (← pg.toNat?) (← pBanks rest) (← off.toNat?)))
   | "sweep" :: bw :: aw :: pg :: rest => do
-    let bw ← bw.toNat?; let aw ← aw.toNat?; let pg ← pg.toNat?; let banks ← pBanks rest
+    let bw ← bw.toNat?; let aw ← aw.toNat?; let pg ← pg.toNat?
+    let parts := (splitSemi rest).filter (· ≠ [])
+    let banks ← (parts.filter (·.head? ≠ some "M")).mapM pBank
+    let mems ← (parts.filter (·.head? = some "M")).mapM fun ws => parseNats (ws.drop 1)
     let hits := (List.range (2 ^ aw)).flatMap fun adr =>
-      (decodeFrom pg bw adr 0 banks).map fun e => s!"{adr}:{e.1}:{e.2}"
+      ((decodeFrom pg bw adr 0 banks).map fun e => s!"{adr}:{e.1}:{e.2}") ++
+      (mems.zipIdx.filterMap fun (m, k) =>
+        match m with
+        | [page, depth, pv] => (sramSel pg page depth pv adr).map fun w => s!"{adr}:M{k}:{w}"
+        | _ => none)
     some (if hits.isEmpty then "-" else unwords hits)
   | "accread" :: bw :: nw :: ws => do
     let bw ← bw.toNat?
@@ -79,10 +87,11 @@ def call (args : List String) : Option String :=
   | "imagebytes" :: big :: q :: n :: ws => do
     let big ← pBool big; let q ← q.toNat?; let img ← parseNats ws
     some (showNats ((List.range (← n.toNat?)).map (imageByte big q img)))
-  | ["memsel", pg, page, depth, adr] => do
-    match memSel (← pg.toNat?) (← page.toNat?) (← depth.toNat?) (← adr.toNat?) with
-    | some w => some (toString w)
-    | none => some "-"
+  | ["sramsel", pg, page, depth, pv, adr] => do
+    let pg ← pg.toNat?; let depth ← depth.toNat?
+    match sramSel pg (← page.toNat?) depth (← pv.toNat?) (← adr.toNat?) with
+    | some w => some s!"{sramPageBits pg depth} {w}"
+    | none => some s!"{sramPageBits pg depth} -"
   | ["fieldextract", off, size, word] => do
     some (toString (fieldExtract (← off.toNat?) (← size.toNat?) (← word.toNat?)))
   | "accepts" :: al :: aw :: pg :: bw :: rest => do
